@@ -10,7 +10,7 @@
 (* real code performs without a scheduling point; the action constraint    *)
 (* SilentPriority fuses them with the preceding step.                      *)
 (***************************************************************************)
-EXTENDS Naturals, Sequences, FiniteSets, TLC, DesyncObs
+EXTENDS Integers, Sequences, FiniteSets, TLC, DesyncObs
 
 CONSTANTS Threads,     \* caller thread names (strings)
           PoolNames,   \* sequence of pool thread names in spawn order
@@ -127,6 +127,9 @@ define {
                           ELSE FirstDormant(i + 1)
 
   NeedsFinish(j) == jkind[j] \in {"fut", "slot", "syncbg"}
+  \* the await point a suspended future is at can make progress: its gate has fired, or it is a nested future (which has to be polled)
+  AwItem(j) == Aw(j)[jaw[j]]
+  AwReady(j) == AwItem(j) < 0 \/ AwItem(j) \in gfired
   Unpark(tok, ts) == [t \in Procs |-> tok[t] \/ t \in ts]
   TaskOf(w) == IF w.k = "TASK" THEN {w.t} ELSE {}
   SeqSet(sq) == {sq[i] : i \in 1..Len(sq)}
@@ -280,8 +283,8 @@ procedure RunOps(rsq, bown, bwk)
   variables bi = 0, bcur = 0, bw = NoW; {
 rb_step:     \* [begin] / [body] / [ret] / [resumed]
   if (bown # 0 /\ jaw[bown] > 0) {
-    \* resumed after the awaited gate fired: go on to the next await
-    skip;
+    \* resumed after the awaited gate fired: go on to the next await; a nested future is polled now
+    if (AwItem(bown) < 0) { goto z_pollaw; };
   } else if (bi < Len(rsq)) {
     bcur := rsq[bi + 1];
     h := ObsCall(IF bi > 0 THEN ObsRet(h, self, rsq[bi], rv[self]) ELSE h, self, rsq[bi + 1]);
@@ -301,7 +304,7 @@ z_finish:
   else if (jaw[bown] < Len(Aw(bown))) {
     with (k = jaw[bown] + 1) {
       jaw[bown] := k;
-      if (Aw(bown)[k] \in gfired) { bi := Len(rsq) + 1; goto rb_step; }
+      if (Aw(bown)[k] < 0 \/ Aw(bown)[k] \in gfired) { bi := Len(rsq) + 1; goto rb_step; }
       else { gwaker[Aw(bown)[k]] := bwk; rv[self] := 5; return; }
     }
   }
@@ -317,6 +320,12 @@ z_finish:
     rv[self] := 0;
     return;
   };
+z_pollaw:    \* a nested await: the inner future is polled with the outer context's waker
+  if (K(0 - AwItem(bown)) = "fsync") { call PollSync(0 - AwItem(bown), bwk); } else { call PollFuture(0 - AwItem(bown), bwk); };
+z_pollaw_after:
+  if (rv[self] = 5) { return; }
+  else if (rv[self] \in {0, 3, 4}) { h := ObsResolved(h, self, 0 - AwItem(bown), rv[self]); goto z_finish; }
+  else { goto z_finish; };
 rb_block:    \* [park] body blocks its thread until the gate fires
   await parkTok[self];
   parkTok[self] := FALSE;
@@ -391,8 +400,8 @@ z_rj:
   if (K(jj) \in {"desync", "sync", "try_sync"}) { h := ObsStart(h, self, jj); call RunOps(Body(jj), jj, jwk); goto z_rj_ret; }
   else if (K(jj) = "fdesync") {
     if (jaw[jj] = 0) { h := ObsStart(h, self, jj); call RunOps(Body(jj), jj, jwk); goto z_rj_ret; }
-    else if (Aw(jj)[jaw[jj]] \in gfired) { call RunOps(Body(jj), jj, jwk); goto z_rj_ret; }
-    else { gwaker[Aw(jj)[jaw[jj]]] := jwk; rv[self] := 5; return; }
+    else if (AwReady(jj)) { call RunOps(Body(jj), jj, jwk); goto z_rj_ret; }
+    else { gwaker[AwItem(jj)] := jwk; rv[self] := 5; return; }
   }
   else if (K(jj) = "after") {
     if (OpTab[jj].g \in gfired) { h := ObsStart(h, self, jj); call RunOps(Body(jj), jj, jwk); goto z_rj_ret; }
@@ -697,7 +706,7 @@ procedure PollSync(sf, sctx) {
 z_ps:
   if (sfst[sf] = "WFQ") { call PollFuture(sf, sctx); }
   else if (sfst[sf] = "WFF") {
-    if (jaw[sf] > 0 /\ Aw(sf)[jaw[sf]] \notin gfired) { gwaker[Aw(sf)[jaw[sf]]] := sctx; rv[self] := 5; return; }
+    if (jaw[sf] > 0 /\ ~AwReady(sf)) { gwaker[AwItem(sf)] := sctx; rv[self] := 5; return; }
     else { call RunOps(Body(sf), sf, sctx); goto z_ps_f; }
   }
   else if (sfst[sf] = "WFS") { goto z_ps_s; }
@@ -1005,6 +1014,9 @@ FirstDormant(i) == IF i > Len(pthreads) THEN [kind |-> "none", p |-> "", i |-> i
                         ELSE FirstDormant(i + 1)
 
 NeedsFinish(j) == jkind[j] \in {"fut", "slot", "syncbg"}
+
+AwItem(j) == Aw(j)[jaw[j]]
+AwReady(j) == AwItem(j) < 0 \/ AwItem(j) \in gfired
 Unpark(tok, ts) == [t \in Procs |-> tok[t] \/ t \in ts]
 TaskOf(w) == IF w.k = "TASK" THEN {w.t} ELSE {}
 SeqSet(sq) == {sq[i] : i \in 1..Len(sq)}
@@ -1752,8 +1764,9 @@ Wake(self) == wk_lock(self) \/ z_wk_second(self) \/ z_pw_after(self)
 
 rb_step(self) == /\ pc[self] = "rb_step"
                  /\ IF bown[self] # 0 /\ jaw[bown[self]] > 0
-                       THEN /\ TRUE
-                            /\ pc' = [pc EXCEPT ![self] = "z_finish"]
+                       THEN /\ IF AwItem(bown[self]) < 0
+                                  THEN /\ pc' = [pc EXCEPT ![self] = "z_pollaw"]
+                                  ELSE /\ pc' = [pc EXCEPT ![self] = "z_finish"]
                             /\ UNCHANGED << h, bi, bcur >>
                        ELSE /\ IF bi[self] < Len(rsq[self])
                                   THEN /\ bcur' = [bcur EXCEPT ![self] = rsq[self][bi[self] + 1]]
@@ -1807,7 +1820,7 @@ z_finish(self) == /\ pc[self] = "z_finish"
                                    ELSE /\ IF jaw[bown[self]] < Len(Aw(bown[self]))
                                               THEN /\ LET k == jaw[bown[self]] + 1 IN
                                                         /\ jaw' = [jaw EXCEPT ![bown[self]] = k]
-                                                        /\ IF Aw(bown[self])[k] \in gfired
+                                                        /\ IF Aw(bown[self])[k] < 0 \/ Aw(bown[self])[k] \in gfired
                                                               THEN /\ bi' = [bi EXCEPT ![self] = Len(rsq[self]) + 1]
                                                                    /\ pc' = [pc EXCEPT ![self] = "rb_step"]
                                                                    /\ UNCHANGED << gwaker, 
@@ -1875,6 +1888,87 @@ z_finish(self) == /\ pc[self] = "z_finish"
                                   dq, dj, oq, oop, omode, oj, yq, yop, tq, top, 
                                   af, wf, wop, sf, sctx, xf, cop, kj, pp, np, 
                                   nbp, dp, pf, pctx, pq, pj, pd, nq >>
+
+z_pollaw(self) == /\ pc[self] = "z_pollaw"
+                  /\ IF K(0 - AwItem(bown[self])) = "fsync"
+                        THEN /\ /\ sctx' = [sctx EXCEPT ![self] = bwk[self]]
+                                /\ sf' = [sf EXCEPT ![self] = 0 - AwItem(bown[self])]
+                                /\ stack' = [stack EXCEPT ![self] = << [ procedure |->  "PollSync",
+                                                                         pc        |->  "z_pollaw_after",
+                                                                         sf        |->  sf[self],
+                                                                         sctx      |->  sctx[self] ] >>
+                                                                     \o stack[self]]
+                             /\ pc' = [pc EXCEPT ![self] = "z_ps"]
+                             /\ UNCHANGED << pf, pctx, pq, pj, pd >>
+                        ELSE /\ /\ pctx' = [pctx EXCEPT ![self] = bwk[self]]
+                                /\ pf' = [pf EXCEPT ![self] = 0 - AwItem(bown[self])]
+                                /\ stack' = [stack EXCEPT ![self] = << [ procedure |->  "PollFuture",
+                                                                         pc        |->  "z_pollaw_after",
+                                                                         pq        |->  pq[self],
+                                                                         pj        |->  pj[self],
+                                                                         pd        |->  pd[self],
+                                                                         pf        |->  pf[self],
+                                                                         pctx      |->  pctx[self] ] >>
+                                                                     \o stack[self]]
+                             /\ pq' = [pq EXCEPT ![self] = 0]
+                             /\ pj' = [pj EXCEPT ![self] = 0]
+                             /\ pd' = [pd EXCEPT ![self] = 0]
+                             /\ pc' = [pc EXCEPT ![self] = "pf_decide"]
+                             /\ UNCHANGED << sf, sctx >>
+                  /\ UNCHANGED << qstate, qpoll, jobs, wakeBlocked, schedule, 
+                                  pthreads, nspawned, palive, busy, busyLocked, 
+                                  inbox, chanOpen, pfin, thrHeld, maxThreads, 
+                                  jkind, jaw, fres, fwaker, gfired, gwaker, 
+                                  gthreads, dwSt, dwW, dblTaken, dblW1, dblW2, 
+                                  nextDW, ready, cwait, cnotif, cvHeld, sdres, 
+                                  jpanic, sfst, slotSt, qrSent, qrWaker, 
+                                  dnState, dnWaker, parkTok, rv, rwb, rneed, 
+                                  dsl, atomic, strong, ppPending, ppClosed, 
+                                  ppNotify, ppNC, ppBP, ppDepth, ppAlive, 
+                                  ppHeld, inItems, inClosed, inWaker, pollFn, 
+                                  chuteFn, pwTaken, nextPoll, ppItem, h, dead, 
+                                  sti, rq, sq, sj, ww, rsq, bown, bwk, bi, 
+                                  bcur, bw, jq, jj, jwk, fj, dq, dj, oq, oop, 
+                                  omode, oj, yq, yop, tq, top, af, wf, wop, xf, 
+                                  cop, kj, pp, np, nbp, dp, nq >>
+
+z_pollaw_after(self) == /\ pc[self] = "z_pollaw_after"
+                        /\ IF rv[self] = 5
+                              THEN /\ pc' = [pc EXCEPT ![self] = Head(stack[self]).pc]
+                                   /\ bi' = [bi EXCEPT ![self] = Head(stack[self]).bi]
+                                   /\ bcur' = [bcur EXCEPT ![self] = Head(stack[self]).bcur]
+                                   /\ bw' = [bw EXCEPT ![self] = Head(stack[self]).bw]
+                                   /\ rsq' = [rsq EXCEPT ![self] = Head(stack[self]).rsq]
+                                   /\ bown' = [bown EXCEPT ![self] = Head(stack[self]).bown]
+                                   /\ bwk' = [bwk EXCEPT ![self] = Head(stack[self]).bwk]
+                                   /\ stack' = [stack EXCEPT ![self] = Tail(stack[self])]
+                                   /\ h' = h
+                              ELSE /\ IF rv[self] \in {0, 3, 4}
+                                         THEN /\ h' = ObsResolved(h, self, 0 - AwItem(bown[self]), rv[self])
+                                              /\ pc' = [pc EXCEPT ![self] = "z_finish"]
+                                         ELSE /\ pc' = [pc EXCEPT ![self] = "z_finish"]
+                                              /\ h' = h
+                                   /\ UNCHANGED << stack, rsq, bown, bwk, bi, 
+                                                   bcur, bw >>
+                        /\ UNCHANGED << qstate, qpoll, jobs, wakeBlocked, 
+                                        schedule, pthreads, nspawned, palive, 
+                                        busy, busyLocked, inbox, chanOpen, 
+                                        pfin, thrHeld, maxThreads, jkind, jaw, 
+                                        fres, fwaker, gfired, gwaker, gthreads, 
+                                        dwSt, dwW, dblTaken, dblW1, dblW2, 
+                                        nextDW, ready, cwait, cnotif, cvHeld, 
+                                        sdres, jpanic, sfst, slotSt, qrSent, 
+                                        qrWaker, dnState, dnWaker, parkTok, rv, 
+                                        rwb, rneed, dsl, atomic, strong, 
+                                        ppPending, ppClosed, ppNotify, ppNC, 
+                                        ppBP, ppDepth, ppAlive, ppHeld, 
+                                        inItems, inClosed, inWaker, pollFn, 
+                                        chuteFn, pwTaken, nextPoll, ppItem, 
+                                        dead, sti, rq, sq, sj, ww, jq, jj, jwk, 
+                                        fj, dq, dj, oq, oop, omode, oj, yq, 
+                                        yop, tq, top, af, wf, wop, sf, sctx, 
+                                        xf, cop, kj, pp, np, nbp, dp, pf, pctx, 
+                                        pq, pj, pd, nq >>
 
 rb_block(self) == /\ pc[self] = "rb_block"
                   /\ parkTok[self]
@@ -2524,7 +2618,8 @@ mx_set(self) == /\ pc[self] = "mx_set"
                                 wf, wop, sf, sctx, xf, cop, kj, pp, np, nbp, 
                                 dp, pf, pctx, pq, pj, pd, nq >>
 
-RunOps(self) == rb_step(self) \/ z_finish(self) \/ rb_block(self)
+RunOps(self) == rb_step(self) \/ z_finish(self) \/ z_pollaw(self)
+                   \/ z_pollaw_after(self) \/ rb_block(self)
                    \/ z_dispatch(self) \/ z_then(self) \/ z_polled(self)
                    \/ pp_setdepth(self) \/ mx_set(self)
 
@@ -2571,7 +2666,7 @@ z_rj(self) == /\ pc[self] = "z_rj"
                                                /\ pc' = [pc EXCEPT ![self] = "rb_step"]
                                                /\ UNCHANGED << gwaker, rv, jq, 
                                                                jj, jwk >>
-                                          ELSE /\ IF Aw(jj[self])[jaw[jj[self]]] \in gfired
+                                          ELSE /\ IF AwReady(jj[self])
                                                      THEN /\ /\ bown' = [bown EXCEPT ![self] = jj[self]]
                                                              /\ bwk' = [bwk EXCEPT ![self] = jwk[self]]
                                                              /\ rsq' = [rsq EXCEPT ![self] = Body(jj[self])]
@@ -2593,7 +2688,7 @@ z_rj(self) == /\ pc[self] = "z_rj"
                                                                           jq, 
                                                                           jj, 
                                                                           jwk >>
-                                                     ELSE /\ gwaker' = [gwaker EXCEPT ![Aw(jj[self])[jaw[jj[self]]]] = jwk[self]]
+                                                     ELSE /\ gwaker' = [gwaker EXCEPT ![AwItem(jj[self])] = jwk[self]]
                                                           /\ rv' = [rv EXCEPT ![self] = 5]
                                                           /\ pc' = [pc EXCEPT ![self] = Head(stack[self]).pc]
                                                           /\ jq' = [jq EXCEPT ![self] = Head(stack[self]).jq]
@@ -3559,7 +3654,7 @@ ro_park(self) == /\ pc[self] = "ro_park"
                                                                     \o stack[self]]
                             /\ pc' = [pc EXCEPT ![self] = "z_rj"]
                        ELSE /\ Assert(qstate[oq[self]] = "Running", 
-                                      "Failure of assertion at line 547, column 5.")
+                                      "Failure of assertion at line 556, column 5.")
                             /\ qstate' = [qstate EXCEPT ![oq[self]] = "WaitingForUnpark"]
                             /\ pc' = [pc EXCEPT ![self] = "ro_check"]
                             /\ UNCHANGED << stack, jq, jj, jwk >>
@@ -3593,7 +3688,7 @@ ro_check(self) == /\ pc[self] = "ro_check"
                                                                      \o stack[self]]
                              /\ pc' = [pc EXCEPT ![self] = "z_rj"]
                         ELSE /\ Assert(qstate[oq[self]] = "WaitingForUnpark", 
-                                       "Failure of assertion at line 554, column 12.")
+                                       "Failure of assertion at line 563, column 12.")
                              /\ pc' = [pc EXCEPT ![self] = "ro_parked"]
                              /\ UNCHANGED << stack, jq, jj, jwk >>
                   /\ UNCHANGED << qstate, qpoll, jobs, wakeBlocked, schedule, 
@@ -4485,8 +4580,8 @@ z_ps(self) == /\ pc[self] = "z_ps"
                          /\ UNCHANGED << gwaker, rv, rsq, bown, bwk, bi, bcur, 
                                          bw, sf, sctx >>
                     ELSE /\ IF sfst[sf[self]] = "WFF"
-                               THEN /\ IF jaw[sf[self]] > 0 /\ Aw(sf[self])[jaw[sf[self]]] \notin gfired
-                                          THEN /\ gwaker' = [gwaker EXCEPT ![Aw(sf[self])[jaw[sf[self]]]] = sctx[self]]
+                               THEN /\ IF jaw[sf[self]] > 0 /\ ~AwReady(sf[self])
+                                          THEN /\ gwaker' = [gwaker EXCEPT ![AwItem(sf[self])] = sctx[self]]
                                                /\ rv' = [rv EXCEPT ![self] = 5]
                                                /\ pc' = [pc EXCEPT ![self] = Head(stack[self]).pc]
                                                /\ sf' = [sf EXCEPT ![self] = Head(stack[self]).sf]
